@@ -4,7 +4,7 @@ from __future__ import annotations
 import itertools
 
 from vf.core import Model, as_handle, rng_for
-from vf.diskcheck import compare_reads, continuation_reads, crossing_count, gen_requests
+from vf.diskcheck import compare_reads, continuation_reads, fault_retry_reads, crossing_count, gen_requests
 from vf.monitors import call
 from vf.writers import vdi as w
 
@@ -142,6 +142,7 @@ def run(case: dict, ctx) -> dict:
         res["viol"].append({"what": "size mismatch", "mech": MECH, "detail": {"got": v.size, "exp": meta["size"]}})
     reqs, exhaustive = gen_requests(rng, meta["size"], [bs], n_random=40 if ctx.tier == "quick" else 120)
     continuation_reads(v, model, reqs, rng, res, MECH)
+    fault_retry_reads(v, model, reqs, rng, res, MECH)
     compare_reads(v, model, reqs, res, MECH)
     res["cnt"]["writer_triangulations"] = tri
     res["cnt"]["multi_block_requests"] = crossing_count(reqs, bs)
